@@ -479,7 +479,12 @@ struct DocumentPredicate
     static const XalanNode*
     getOwner(const XalanNode&   node)
     {
-        return isDocument(node) == true ? &node : node.getOwnerDocument();
+        // Only a document node has no owner document, so it owns itself.
+        // A document fragment belongs to its owner document, like the
+        // nodes it contains...
+        const XalanNode* const  theOwner = node.getOwnerDocument();
+
+        return theOwner == 0 ? &node : theOwner;
     }
 };
 
@@ -640,23 +645,13 @@ MutableNodeRefList::addNodeInDocOrder(
 
                 // Normalize so that if we have a document node, it owns
                 // itself, which is not how DOM works...
-                const XalanNode::NodeType   theFirstNodeType =
-                    theFirstNode->getNodeType();
-
                 const XalanNode* const  theFirstNodeOwner =
-                     theFirstNodeType == XalanNode::DOCUMENT_NODE ||
-                     theFirstNodeType == XalanNode::DOCUMENT_FRAGMENT_NODE ?
-                            theFirstNode : theFirstNode->getOwnerDocument();
+                    DocumentPredicate::getOwner(*theFirstNode);
                 assert(theFirstNodeOwner != 0);
 
                 // The same normalization for the node being added...
-                const XalanNode::NodeType   theNodeType =
-                    node->getNodeType();
-
                 const XalanNode* const  theNodeOwner =
-                     theNodeType == XalanNode::DOCUMENT_NODE ||
-                     theNodeType == XalanNode::DOCUMENT_FRAGMENT_NODE ?
-                            node : node->getOwnerDocument();
+                    DocumentPredicate::getOwner(*node);
 
                 if (node->isIndexed() == true &&
                     theNodeOwner == theFirstNodeOwner)
@@ -665,12 +660,8 @@ MutableNodeRefList::addNodeInDocOrder(
                     // nodes from the same document.
                     // Normalize so that if we have a document node, it owns
                     // itself, which is not how DOM works...
-                    const XalanNode::NodeType   theLastNodeType =
-                            theLastNode->getNodeType();
                     const XalanNode* const  theLastNodeOwner =
-                        theLastNodeType == XalanNode::DOCUMENT_NODE ||
-                        theLastNodeType == XalanNode::DOCUMENT_FRAGMENT_NODE ?
-                                theLastNode : theLastNode->getOwnerDocument();
+                        DocumentPredicate::getOwner(*theLastNode);
                     assert(theLastNodeOwner != 0);
 
                     // If the owner document is 0, then it's a document node, so there's not
